@@ -3,30 +3,11 @@
 From Coq Require Import List NArith Lia Bool ZArith.
 From Coq Require Import ZifyBool ZifyN ZifyNat.
 Import ListNotations.
-From Glb Require Import Lib.Utf8 Proofs.Utf8P Lib.Json Model.LoggerJson.
+From Glb Require Import Lib.Utf8 Proofs.Utf8P Lib.Json Proofs.JsonP Model.LoggerJson.
 Open Scope N_scope.
 Ltac Zify.zify_post_hook ::= Z.div_mod_to_equations.
 
 (** ** unfolding lemmas for the string scanner *)
-Lemma psb_S f b t :
-  psb (S f) (b :: t) =
-  if b =? 34 then Some ([], t)
-  else if b =? 92 then
-    match escape1 t with
-    | Some (bs, r) => match psb f r with Some (o, r') => Some (bs ++ o, r') | None => None end
-    | None => None
-    end
-  else if b <? 32 then None
-  else if b <? 128 then match psb f t with Some (o, r') => Some (b :: o, r') | None => None end
-  else
-    let d := decode (b :: t) in
-    if invalid d then None
-    else match psb f (skipn (snd d) (b :: t)) with
-         | Some (o, r') => Some (firstn (snd d) (b :: t) ++ o, r')
-         | None => None
-         end.
-Proof. reflexivity. Qed.
-
 Lemma psb_quote f r : psb (S f) (34 :: r) = Some ([], r).
 Proof. reflexivity. Qed.
 
@@ -80,15 +61,6 @@ Proof.
   replace ((56320 <=? b) && (b <? 57344)) with false by lia.
   replace ((55296 <=? b) && (b <? 56320)) with false by lia.
   unfold enc. replace (b <? 128) with true by lia. reflexivity.
-Qed.
-
-Lemma decode_size b t : (1 <= snd (decode (b :: t)) <= 4)%nat.
-Proof.
-  unfold decode.
-  repeat match goal with
-         | |- context [if ?c then _ else _] => destruct c
-         | |- context [match ?l with [] => _ | _ :: _ => _ end] => destruct l
-         end; cbn [snd]; lia.
 Qed.
 
 Lemma enc_ge128 c x : 128 <= c -> In x (enc c) -> 128 <= x.
